@@ -42,6 +42,7 @@ pub fn all() -> Vec<Box<dyn Check>> {
         Box::new(c15::C15),
         Box::new(c16::C16),
         Box::new(c17::C17),
+        Box::new(c18::C18),
         Box::new(c19::C19),
         Box::new(c20::C20),
     ]
